@@ -16,7 +16,9 @@ Mk(i, s, e, n, pat) ==
    ftype |-> IF pat = "lastType" /\ i = n /\ n > 1 THEN TGn ELSE TEx, start |-> s, end |-> e, score |-> DOTT,
    strand |-> IF pat = "allMinus" \/ (pat = "lastStrand" /\ i = n /\ n > 1) \/ (pat = "firstStrand" /\ i = 1 /\ n > 1) THEN MINUSS ELSE PLUS, frame |-> DOTT,
    attrs |-> IF pat = "sharedAttrs" THEN SharedAttrs
-             ELSE <<<<T_ID, <<<<102, 48 + i>>>>>>, <<<<110>>, <<IF i = 2 THEN <<49, 48>> ELSE <<57>>>>>>, <<T_Parent, <<<<116>>>>>>>>, extra |-> <<>>]
+             ELSE <<<<T_ID, <<<<102, 48 + i>>>>>>, <<<<110>>, <<IF i = 2 THEN <<49, 48>> ELSE <<57>>>>>>, <<T_Parent, <<<<116>>>>>>,
+                    <<<<78>>, <<IF i % 2 = 1 THEN <<90, 98>> ELSE <<97, 98>>>>>>>>,        \* N=Zb / N=ab: sorted means code-point order ("Zb" before "ab")
+   extra |-> <<>>]
 Ivs == {<<s, e>> : s \in 1..MaxPos, e \in 1..MaxPos}
 Valid(iv) == iv[1] <= iv[2]
 InterCfgs == {[newtype |-> nt, mergeAttrs |-> m, numeric |-> nu, update |-> up] :
@@ -42,16 +44,16 @@ Next == /\ ~done /\ done' = TRUE
         /\ \E last \in {iv \in Ivs : Valid(iv)} \cup {<<>>} : ivs' = IF last = <<>> THEN ivs ELSE Append(ivs, last)
         /\ pat' \in Pats
         /\ IF Mode = "inter"
-           THEN /\ k' \in 1..4
+           THEN /\ k' \in 1..5
                 /\ LET cfg == CHOOSE c \in InterCfgs : c = [newtype |-> IF k' % 2 = 0 THEN <<>> ELSE T_intron, mergeAttrs |-> k' <= 3, numeric |-> k' = 2,
-                                                           update |-> IF k' = 3 THEN <<<<<<110>>, <<<<122>>>>>>>> ELSE <<>>] IN
+                                                           update |-> IF k' \in {3, 5} THEN <<<<<<110>>, <<<<122>>>>>>>> ELSE <<>>] IN
                    (Hash(ivs', pat', k') % PrintMod # 0) \/ PrintT(ToJson([feats |-> Fs(ivs', pat'), cfg |-> cfg, exp |-> Inter_Decl(Fs(ivs', pat'), cfg)]))
            ELSE /\ k' \in 1..Len(CritSets)
                 /\ (Hash(ivs', pat', k') % PrintMod # 0) \/
                    PrintT(ToJson([feats |-> Fs(ivs', pat'), crits |-> CritSets[k'], exp |-> OutView(Merge_Alg2(Fs(ivs', pat'), CritSets[k'], {}).out),
                                   expdef |-> OutView(Merge_Alg2(Fs(ivs', pat'), DefaultCrits, {}).out)]))
 F == Fs(ivs, pat)
-ICfg == [newtype |-> IF k % 2 = 0 THEN <<>> ELSE T_intron, mergeAttrs |-> k <= 3, numeric |-> k = 2, update |-> IF k = 3 THEN <<<<<<110>>, <<<<122>>>>>>>> ELSE <<>>]
+ICfg == [newtype |-> IF k % 2 = 0 THEN <<>> ELSE T_intron, mergeAttrs |-> k <= 3, numeric |-> k = 2, update |-> IF k \in {3, 5} THEN <<<<<<110>>, <<<<122>>>>>>>> ELSE <<>>]   \* k = 5: update_attributes WITHOUT merge_attributes
 InvInter == (done /\ Mode = "inter") => Inter_Alg(F, ICfg) = Inter_Decl(F, ICfg) /\ NMinusOne(F, ICfg)
 MOut == Merge_Alg2(F, CritSets[k], {}).out
 InvPartition == (done /\ Mode = "merge") => PartitionOK(F, MOut)
